@@ -139,8 +139,8 @@ theorem solid_cool (m cp cmin D L dt q Hs Tlo a B Δ : ℝ)
     (hm : 0 < m) (hcmin : 0 < cmin) (hcp : cmin ≤ cp) (hD : 0 < D) (hL : 0 < L) (hdt : 0 < dt)
     (ha : 0 < a) (ha1 : a < 1)
     (hB : B = cp * (D / a ^ 2) + L) (hΔeq : Δ * (m * B) = -(q * dt)) (hq : q ≤ 0)
-    (hq1 : -q ≤ Hs * Tlo) (hT : 0 ≤ Tlo)
-    (hX : dt * Hs * Tlo ≤ 1 / 2 * (D * m * cmin)) (hcfl : 2 * (dt * Hs) ≤ m * cmin) :
+    (hq1 : -q ≤ Hs * Tlo) (hT : 0 ≤ Tlo) (G : ℝ) (hHs : 0 ≤ Hs) (hG : Tlo ≤ G)
+    (hX : (dt * Hs * G) ^ 2 ≤ m ^ 2 * (cmin * D * L)) (hcfl : 2 * (dt * Hs) ≤ m * cmin) :
     0 ≤ Δ ∧ Δ ≤ a / 2 ∧ D * Δ ≤ Tlo * (a * (a - Δ)) := by
   have hcp0 : 0 < cp := lt_of_lt_of_le hcmin hcp
   have ha2 : 0 < a ^ 2 := pow_pos ha 2
@@ -165,25 +165,43 @@ theorem solid_cool (m cp cmin D L dt q Hs Tlo a B Δ : ℝ)
   have hBq : -(q * dt) ≤ dt * Hs * Tlo := by
     have := mul_le_mul_of_nonneg_left hq1 (le_of_lt hdt)
     linarith
-  -- Δ ≤ a²/2
-  have hA : Δ * (m * (cmin * D)) ≤ Δ * (m * (cp * D)) := by
-    apply mul_le_mul_of_nonneg_left _ hΔ0
-    apply mul_le_mul_of_nonneg_left _ (le_of_lt hm)
-    exact mul_le_mul_of_nonneg_right hcp (le_of_lt hD)
-  have hC : -(q * dt) * a ^ 2 ≤ dt * Hs * Tlo * a ^ 2 :=
-    mul_le_mul_of_nonneg_right hBq (le_of_lt ha2)
-  have hE : dt * Hs * Tlo * a ^ 2 ≤ 1 / 2 * (D * m * cmin) * a ^ 2 :=
-    mul_le_mul_of_nonneg_right hX (le_of_lt ha2)
-  have hΔa : Δ ≤ a ^ 2 / 2 := by
-    have hpos : 0 < m * (cmin * D) := by positivity
-    have : Δ * (m * (cmin * D)) ≤ (a ^ 2 / 2) * (m * (cmin * D)) := by
-      have e : (a ^ 2 / 2) * (m * (cmin * D)) = 1 / 2 * (D * m * cmin) * a ^ 2 := by ring
-      rw [e]; linarith
-    exact le_of_mul_le_mul_right this hpos
-  have haa : a ^ 2 ≤ a := by
-    have : a * a ≤ 1 * a := mul_le_mul_of_nonneg_right (le_of_lt ha1) (le_of_lt ha)
-    rw [pow_two]; linarith
-  have hΔa' : Δ ≤ a / 2 := by linarith
+  -- Δ ≤ a/2 :  2a·(−q dt) ≤ 2a·x ≤ m cp D + a² m L = a² m B   (AM–GM, x = dt Hs G)
+  have hx0 : 0 ≤ dt * Hs * G := by
+    have : 0 ≤ G := le_trans hT hG
+    positivity
+  have hEx : -(q * dt) ≤ dt * Hs * G := by
+    have : dt * Hs * Tlo ≤ dt * Hs * G :=
+      mul_le_mul_of_nonneg_left hG (mul_nonneg (le_of_lt hdt) hHs)
+    linarith
+  have hamgm : 2 * a * (dt * Hs * G) ≤ m * (cp * D) + a ^ 2 * (m * L) := by
+    have hy0 : 0 ≤ m * (cp * D) + a ^ 2 * (m * L) := by positivity
+    have hsq : (2 * a * (dt * Hs * G)) ^ 2 ≤ (m * (cp * D) + a ^ 2 * (m * L)) ^ 2 := by
+      have h4 : (2 * a * (dt * Hs * G)) ^ 2 = 4 * a ^ 2 * (dt * Hs * G) ^ 2 := by ring
+      have h5 : 4 * a ^ 2 * (dt * Hs * G) ^ 2 ≤ 4 * a ^ 2 * (m ^ 2 * (cmin * D * L)) :=
+        mul_le_mul_of_nonneg_left hX (by positivity)
+      have h6 : 4 * a ^ 2 * (m ^ 2 * (cmin * D * L)) ≤ 4 * a ^ 2 * (m ^ 2 * (cp * D * L)) := by
+        apply mul_le_mul_of_nonneg_left _ (by positivity)
+        apply mul_le_mul_of_nonneg_left _ (by positivity)
+        exact mul_le_mul_of_nonneg_right (mul_le_mul_of_nonneg_right hcp (le_of_lt hD)) (le_of_lt hL)
+      have h7 : (m * (cp * D) + a ^ 2 * (m * L)) ^ 2 - 4 * a ^ 2 * (m ^ 2 * (cp * D * L))
+          = (m * (cp * D) - a ^ 2 * (m * L)) ^ 2 := by ring
+      nlinarith [sq_nonneg (m * (cp * D) - a ^ 2 * (m * L))]
+    exact le_of_sq_le_sq hsq hy0
+  have hΔa' : Δ ≤ a / 2 := by
+    have e : a ^ 2 * (m * B) = m * (cp * D) + a ^ 2 * (m * L) := by
+      rw [hB]; field_simp
+    have h8 : 2 * a * (Δ * (m * B)) ≤ a ^ 2 * (m * B) := by
+      rw [hΔeq, e]
+      have : 2 * a * -(q * dt) ≤ 2 * a * (dt * Hs * G) :=
+        mul_le_mul_of_nonneg_left hEx (by positivity)
+      linarith
+    have h9 : (2 * Δ) * (a * (m * B)) ≤ a * (a * (m * B)) := by
+      have e1 : (2 * Δ) * (a * (m * B)) = 2 * a * (Δ * (m * B)) := by ring
+      have e2 : a * (a * (m * B)) = a ^ 2 * (m * B) := by ring
+      rw [e1, e2]; exact h8
+    have hpos : 0 < a * (m * B) := mul_pos ha hmB
+    have := le_of_mul_le_mul_right h9 hpos
+    linarith
   refine ⟨hΔ0, hΔa', ?_⟩
   -- D Δ m cp ≤ (−q dt) a²  and  2(−q dt) ≤ Tlo m cp
   have hcfl' : -(q * dt) * 2 ≤ Tlo * (m * cp) := by
@@ -238,7 +256,8 @@ theorem solid_core (m cp cmin D L dt q Hs Tm lo σ B : ℝ)
     (hB : B = cp * (D / (1 - σ) ^ 2) + L)
     (hlo : lo ≤ Tm - D * (1 / (1 - σ)))
     (hq1 : Hs * (lo - (Tm - D * (1 / (1 - σ)))) ≤ q)
-    (hX : dt * Hs * ((Tm - D * (1 / (1 - σ))) - lo) ≤ 1 / 2 * (D * m * cmin))
+    (hHs : 0 ≤ Hs) (G : ℝ) (hG : (Tm - D * (1 / (1 - σ))) - lo ≤ G)
+    (hX : (dt * Hs * G) ^ 2 ≤ m ^ 2 * (cmin * D * L))
     (hcfl : 2 * (dt * Hs) ≤ m * cmin)
     (hside : 0 < q → q * dt ≤ σ * m * L) :
     0 < σ - q * dt / (m * B) ∧ σ - q * dt / (m * B) < 1 ∧
@@ -258,7 +277,7 @@ theorem solid_core (m cp cmin D L dt q Hs Tm lo σ B : ℝ)
   rw [hσ']
   rcases le_or_gt q 0 with hq | hq
   · have hc := solid_cool m cp cmin D L dt q Hs ((Tm - D * (1 / (1 - σ))) - lo) (1 - σ) B Δ
-      hm hcmin hcp hD hL hdt ha ha1 hB hΔeq hq (by linarith) (by linarith) hX hcfl
+      hm hcmin hcp hD hL hdt ha ha1 hB hΔeq hq (by linarith) (by linarith) G hHs hG hX hcfl
     obtain ⟨h0, h1, h2⟩ := hc
     have ha' : 0 < 1 - σ - Δ := by linarith
     refine ⟨by linarith, by linarith, ?_⟩
